@@ -38,6 +38,30 @@ def _same(a, b):
         return a is b
 
 
+def _raw_data_key(v):
+    """content of a payload, exact (repr of the floats: 0.0 and -0.0 are different contents)"""
+    tn = type(v).__name__
+    if tn == "FloatDataType":
+        return "F:" + repr(float(v.data))
+    if tn == "FloatDataCollection":
+        return "C:" + repr([float(x.data) for x in v])
+    return tn
+
+
+def _raw_ctx_key(c):
+    def enc(o):
+        try:
+            import numpy as np
+            if isinstance(o, np.ndarray):
+                return ["ndarray"] + o.tolist()
+            if isinstance(o, np.generic):
+                return o.item()
+        except Exception:
+            pass
+        return repr(o)
+    return json.dumps(c, sort_keys=True, default=enc)
+
+
 def _has_default(node_proc_cls, name):
     from semantiva.data_processors.data_processors import _NO_DEFAULT
     from semantiva.pipeline._param_resolution import _default_for
@@ -154,17 +178,9 @@ def ser_problems(r):
                 if nx.get("pre_context", {}).get("sha256") != cpost:
                     out.append(("C07:ser:digest:post_context-of-node-k-differs-from-pre_context-of-node-k+1", kind))
             for tag, dig, val in (("d", din, e["data_pre"]), ("d", dout, e["data_post"])):
-                try:
-                    key = (tag, json.dumps(pg.canon_data(val)))
-                except pg.Unsupported:
-                    continue
-                by_content.setdefault(key, set()).add(dig)
+                by_content.setdefault((tag, _raw_data_key(val)), set()).add(dig)
             for tag, dig, val in (("c", cpre, pre), ("c", cpost, post)):
-                try:
-                    key = (tag, json.dumps({k: pg.canon_val(v) for k, v in val.items()}, sort_keys=True))
-                except pg.Unsupported:
-                    continue
-                by_content.setdefault(key, set()).add(dig)
+                by_content.setdefault((tag, _raw_ctx_key(val)), set()).add(dig)
     for key, digs in by_content.items():
         if len(digs) > 1:
             out.append(("C07:ser:digest:equal-content-different-digest", "%s" % (key,)))
